@@ -104,6 +104,14 @@ func propC12(w *World, r *Report) {
 	// back to a normal state after a failure: a recording whose counter a failed start left above its target is still
 	// ended by the next stop test (the comparison is non-strict)
 	checkStopTaken(w, r, runs, resolveMotionRoles(runs.fault), "Y3")
+	// ... and a start that failed or was refused is tried again on the next motion frame: the run counter keeps counting
+	// past the trigger length, so the refusal test must be the strict inequality (an equality test would never fire again)
+	if mr := resolveMotionRoles(runs.fault); mr.TrigLabel != "" {
+		cl, _ := parseCmpLabel(mr.TrigLabel)
+		r.Check(relationOn(mr.TrigLabel, mr.Trig, 1) == "<" || relationOn(mr.TrigLabel, mr.Trig, 0) == "<", "Y3", "a failed or refused start is retried while the motion continues (trigger test is counter < trigger-frames)", "-", cl.Raw)
+	} else {
+		r.Unknown("Y3", "trigger comparison", "-", "consecutive-motion counter / trigger comparison not resolved")
+	}
 	r.Extra["reachable_states"] = len(run.Reach)
 	r.Extra["interpreter_steps"] = run.Steps
 	r.Extra["quiescent_states"] = qs
